@@ -30,3 +30,8 @@ CASES = [
     dict(id='c04-eq-argv-plus-three', prop='C04', file=A, expect=None,
          old="   mpArgV = new char*[ arguments.size() + 2];", new="   mpArgV = new char*[ arguments.size() + 3];"),
 ]
+
+CASES += [
+    dict(id='c04-argv0-strdup', prop='C04', file='src/library/appl/arg_string_2_array.cpp', expect='R2',
+         old="      mpArgV[ 0] = new char[ 12];\n      ::strcpy( mpArgV[ 0], \"programname\");", new="      mpArgV[ 0] = ::strdup( \"programname\");"),
+]
